@@ -142,6 +142,7 @@ def run(ctx) -> None:
     ok = bool(calls) and all(any(isinstance(a, ast.Name) and a.id == "bound" for a in c.args) for c in calls)
     rep.add("C08.R4", f"{cis.qname}:passes-bound", ok, cis.loc(), "compute_input_spec hands its bound mapping to the categoriser" if ok else "compute_input_spec does not hand the bound mapping to the categoriser")
     check_cache_invalidation(ctx, "C08.R4", families=("Graph",))
+    check_default_existential(ctx, "C08.R4")
 
     # ---- R5 ---------------------------------------------------------------------
     vi = db.func("runners._shared.validation.validate_inputs")
@@ -244,6 +245,40 @@ def run(ctx) -> None:
     check_spec_recomputation_inputs(ctx, "C08.R9")
 
 
+def check_default_existential(ctx, rule: str) -> None:
+    """A parameter is optional iff *some* consumer offers a default (a wrapper counts inner bound values
+    as defaults, so the all-or-none rule of signature defaults does not make consumers interchangeable):
+    the test quantifies over every consuming node."""
+    db, rep = ctx.db, ctx.rep
+    f = db.func("graph.input_spec._any_node_has_default")
+    pn = (f.param_names + ["", ""])
+    p_param, p_nodes = pn[0], pn[1]
+
+    def over_all_nodes(it: ast.AST) -> bool:
+        t = src(it)
+        return t in (f"{p_nodes}.values()", p_nodes, f"{p_nodes}.items()")
+
+    def mentions_default(e: ast.AST) -> bool:
+        return any(isinstance(x, ast.Call) and isinstance(x.func, ast.Attribute) and x.func.attr == "has_default_for" for x in ast.walk(e))
+
+    ok, why = False, "the test does not quantify over all consuming nodes"
+    rets = [n for n in walk_local(f.node) if isinstance(n, ast.Return) and n.value is not None]
+    for r in rets:
+        v = r.value
+        if isinstance(v, ast.Call) and dotted(v.func) in ("any", "bool") and len(v.args) == 1 and isinstance(v.args[0], (ast.GeneratorExp, ast.ListComp)):
+            g = v.args[0]
+            if len(g.generators) == 1 and over_all_nodes(g.generators[0].iter) and (mentions_default(g.elt) or any(mentions_default(c) for c in g.generators[0].ifs)):
+                ok, why = True, "any(... for node in nodes.values()): some consumer has a default"
+    if not ok:
+        for lp in [n for n in walk_local(f.node) if isinstance(n, ast.For) and over_all_nodes(n.iter)]:
+            inner_true = [x for x in ast.walk(lp) if isinstance(x, ast.Return) and isinstance(x.value, ast.Constant) and x.value.value is True]
+            has_break = any(isinstance(x, ast.Break) for x in ast.walk(lp))
+            tail_false = any(isinstance(r.value, ast.Constant) and r.value.value is False and not contains(lp, r) for r in rets)
+            if inner_true and tail_false and not has_break and any(mentions_default(x) for x in ast.walk(lp)) and all(isinstance(r.value, ast.Constant) for r in rets):
+                ok, why = True, "loop over all nodes returning True at the first consumer with a default"
+    rep.add(rule, f"{f.qname}:some-consumer-has-default", ok, f.loc(), why if ok else f"{why} (e.g. only the first consumer is asked): a nested graph that binds the parameter counts as a default, so required/optional would depend on node order and differ from the flat graph")
+
+
 def check_spec_recomputation_inputs(ctx, rule: str) -> None:
     """Every call of compute_input_spec is fed the graph's own raw state — the same attributes the
     cached Graph.inputs passes (nodes, nx graph, the graph's *own* bindings, entry points)."""
@@ -329,6 +364,8 @@ TS = "src/hypergraph/runners/_shared/template_sync.py"
 TA = "src/hypergraph/runners/_shared/template_async.py"
 CORE = "src/hypergraph/graph/core.py"
 VARIANTS = [
+    Variant("first-consumer-decides-default", IS, replace_once("    return any(param in node.inputs and node.has_default_for(param) for node in nodes.values())", "    consumer = next((node for node in nodes.values() if param in node.inputs), None)\n    return consumer is not None and consumer.has_default_for(param)"), {"C08.R4"}),
+    Variant("twin-default-existential-as-loop", IS, replace_once("    return any(param in node.inputs and node.has_default_for(param) for node in nodes.values())", "    for node in nodes.values():\n        if param in node.inputs and node.has_default_for(param):\n            return True\n    return False"), set()),
     Variant("dispatcher-before-validate-async", TA, sub_first(r"(        validate_runner_compatibility\(graph, self\.capabilities\)\n        validate_node_types\(graph, self\.supported_node_types\)\n        effective_selected = resolve_runtime_selected\(select, graph\)\n        validate_inputs\(.*?\n        \)\n        _validate_on_missing\(on_missing\)\n        _validate_error_handling\(error_handling\)\n\n        max_iter = max_iterations or self\.default_max_iterations\n)        dispatcher = self\._create_dispatcher\(event_processors\)\n", r"        dispatcher = self._create_dispatcher(event_processors)\n\1"), {"C08.R1"}),
     Variant("validation-probes-node-function", VA, replace_once("    _validate_on_internal_override(on_internal_override)\n", "    _validate_on_internal_override(on_internal_override)\n    for _n in graph._nodes.values():\n        if not _n.inputs and hasattr(_n, \"func\"):\n            _n.func()\n"), {"C08.R2"}),
     Variant("both-categories", IS, replace_once("        if category == \"required\":\n            required.append(param)\n        elif category == \"optional\":\n            optional.append(param)", "        if category == \"required\":\n            required.append(param)\n        if category is not None:\n            optional.append(param)"), {"C08.R3"}),
